@@ -112,6 +112,9 @@ def check_c10(prop, tier):
         res.add(traces_validated_against_impl=s["execs"], restores_checked=s["restores"], calls_validated=s["calls"], tv_drifts=len(s["drifts"]),
                 replayed_model_behaviours=len(replays))
         classify_tv(res, s, {"C10"}, set(), lambda i: hs[i], "recorded history with restores", spec="seq")
+        if s["drifts"]:
+            res.downgrade("line=%d scenario=%d: a call result or the layout of a restored queue is not the model's" % (s["drifts"][0]["line"], s["drifts"][0]["sc"]),
+                          s["restores"], s["execs"], "restores of recorded histories judged by C10's own predicate (same price, orders, derived aggregates; listing once each in timestamp order)")
         res.sample({"history_with_restores": hs[0]["threads"][0][:10]})
         res.assumptions += ["external data has unique ids", "restore paths: from_snapshot, From<&Snapshot>, from_snapshot_package, from_snapshot_json, TryFrom<PriceLevelData>, serde JSON, Display/FromStr; each with honest and with falsified aggregate figures"]
         return res.finish()
@@ -143,6 +146,9 @@ def check_c11(prop, tier):
         s = tv(h["trace"], "MCTraceSeq", "TraceSeq", work, timeout=6000)
         res.add(traces_validated_against_impl=s["execs"], lockstep_calls=s["lockstep"], lockstep_differences=s["lockdiff"], tv_drifts=len(s["drifts"]))
         classify_tv(res, s, {"C11"}, {"KF-C11-1", "KF-C11-2"}, lambda i: hs[i], "lock-step of original and restored level", spec="seq")
+        if s["drifts"]:
+            res.downgrade("line=%d scenario=%d: a call result or the layout of a restored queue is not the model's" % (s["drifts"][0]["line"], s["drifts"][0]["sc"]),
+                          s["lockstep"], s["execs"], "lock-step continuations of original and restored level compared call by call")
         res.sample({"history": hs[0]["threads"][0][:12]})
         res.assumptions += ["snapshot taken at a quiescent point (single thread)", "equivalence is on makers, quantities, update results; transaction ids and wall-clock fields are not compared"]
         return res.finish()
